@@ -46,9 +46,10 @@ MANIFEST = {
             "outside the model (it starts from local fields + the true offset computed by the harness). Oracle-only: nothing; "
             "every oracle check has a theorem counterpart. Theorems assume UTC offsets that are whole seconds (write_aware; "
             "subsecond_offset_excluded shows the hypothesis is needed for code that truncates before converting); offsets with a "
-            "sub-second part are generated and judged by the oracle against the input instant: the deviation of the current code "
-            "is finding C15-subsecond-utcoffset-truncated-before-utc-conversion (fix proposed; with it such a value is moved to UTC "
-            "first, which the harness models by handing the model the UTC fields); rejected strings (7+ fraction digits) are outside 'accepted strings'. No axioms.",
+            "sub-second part are generated and judged by the oracle against the input instant: since fix 64386a7 such a value is "
+            "moved to UTC first, which the harness models by handing the model the UTC fields (variant probed at run time; code "
+            "that truncates first is reported as C15-subsecond-utcoffset-truncated-before-utc-conversion, recorded fixed); "
+            "rejected strings (7+ fraction digits) are outside 'accepted strings'. No axioms.",
     "technique": "Coq proof over a hand-written executable model + source-text translation of the digit logic + per-run correspondence with the implementation",
 }
 
